@@ -63,8 +63,21 @@ impl SymStream {
         for (a, b) in [(0, 1), (1, 3), (3, 5), (5, mid), (mid, bytes.len())] {
             self.parts.push(bytes[a..b].to_vec());
         }
+        // "A<n>": padding that makes the whole message (delimiter included) exactly n bytes long - sizes that are
+        // multiples of the usual buffer sizes; the padding starts with "z<n>z" so that it can be recognised again
+        let fixed: usize = prefix.len() + suffix.len() + EOM.len()
+            + body.iter().filter(|s| !(s.starts_with('A') && s.len() > 1)).map(|s| sym_bytes(s).len()).sum::<usize>();
         for s in body {
-            self.parts.push(sym_bytes(s));
+            if let Some(n) = s.strip_prefix('A').and_then(|d| d.parse::<usize>().ok()) {
+                let mut pad = format!("z{n}z").into_bytes();
+                let want = n.saturating_sub(fixed);
+                while pad.len() < want {
+                    pad.push(b'z');
+                }
+                self.parts.push(pad);
+            } else {
+                self.parts.push(sym_bytes(s));
+            }
         }
         self.parts.push(suffix.as_bytes().to_vec());
         for c in EOM.chars() {
@@ -99,10 +112,16 @@ fn hello_stream() -> SymStream {
 }
 
 fn reply_stream(ids: &[u64], bodies: &[Vec<String>]) -> SymStream {
+    reply_stream_sep(ids, bodies, "")
+}
+
+/// `sep`: what the peer writes after every end-of-message marker (Junos: a line feed) - it reaches the client as
+/// the first byte(s) of the next message
+fn reply_stream_sep(ids: &[u64], bodies: &[Vec<String>], sep: &str) -> SymStream {
     let mut s = SymStream::new();
     for (k, body) in bodies.iter().enumerate() {
         let id = ids.get(k).copied().unwrap_or(0);
-        let p = format!("<rpc-reply message-id=\"{id}\" xmlns=\"{BASE_NS}\"><data><!--");
+        let p = format!("{sep}<rpc-reply message-id=\"{id}\" xmlns=\"{BASE_NS}\"><data><!--");
         s.push_msg(&p, body, "--></data></rpc-reply>");
     }
     s
@@ -197,7 +216,8 @@ async fn run_peer(io: &mut dyn PeerIo, case: &Value) {
     }
     let close = case["close"].as_str().unwrap_or("none");
     let upto = if close == "none" { None } else { close_at(&case["close_at"]) };
-    let stream = reply_stream(&ids, &bodies);
+    let sep = if case["sep"].as_str() == Some("nl") { "\n" } else { "" };
+    let stream = reply_stream_sep(&ids, &bodies, sep);
     let chunks = stream.chunks(&usizes(&case["cuts"]), upto);
     let long_pause = case["pause_after_first_ms"].as_u64().unwrap_or(0);
     if !send_chunks(io, chunks, long_pause).await {
@@ -211,7 +231,7 @@ async fn run_peer(io: &mut dyn PeerIo, case: &Value) {
     // one more round trip: the session must still be usable
     if let Some(r) = io.next_request().await {
         let id = message_id_of(&r).unwrap_or(0);
-        let s = reply_stream(&[id], &[vec!["x".into(), "x".into()]]);
+        let s = reply_stream_sep(&[id], &[vec!["x".into(), "x".into()]], sep);
         let _ = send_chunks(io, s.chunks(&[], None), 0).await;
     }
     // keep the connection open until the client is done
@@ -636,7 +656,34 @@ fn body_syms(s: &str) -> Vec<String> {
     let inner = s.trim();
     let inner = inner.strip_prefix("<!--").and_then(|r| r.strip_suffix("-->"));
     match inner {
-        Some(b) => b.replace(&"y".repeat(BIG), "X").chars().map(|c| c.to_string()).collect(),
+        Some(b) => {
+            let b = b.replace(&"y".repeat(BIG), "X");
+            // "z<n>z" followed by z's is the aligned-size symbol A<n>
+            let mut out: Vec<String> = Vec::new();
+            let cs: Vec<char> = b.chars().collect();
+            let mut i = 0;
+            while i < cs.len() {
+                if cs[i] == 'z' {
+                    let mut j = i + 1;
+                    let mut digits = String::new();
+                    while j < cs.len() && cs[j].is_ascii_digit() {
+                        digits.push(cs[j]);
+                        j += 1;
+                    }
+                    if !digits.is_empty() && j < cs.len() && cs[j] == 'z' {
+                        while j < cs.len() && cs[j] == 'z' {
+                            j += 1;
+                        }
+                        out.push(format!("A{digits}"));
+                        i = j;
+                        continue;
+                    }
+                }
+                out.push(cs[i].to_string());
+                i += 1;
+            }
+            out
+        }
         None => vec![format!("?{s}")],
     }
 }
@@ -785,7 +832,7 @@ async fn run_case(case: Value, acceptor: tokio_rustls::TlsAcceptor, wd: String) 
         ev["entry"] = json!(if LOCAL_ENTRY.load(std::sync::atomic::Ordering::Relaxed) { "Session::junos_local" } else { "verif_connect" });
     }
     for k in ["case", "transport", "hello_cuts", "hello_close", "hello_close_at", "bodies", "cuts", "close", "close_at",
-              "pause_after_first_ms", "drop_first_after_ms"] {
+              "pause_after_first_ms", "drop_first_after_ms", "sep"] {
         if !case[k].is_null() {
             ev[k] = case[k].clone();
         }
